@@ -355,7 +355,7 @@ class ArmV6:
 
     def default_memory_attributes(self, va):
         memattrs = MemoryAttributes()
-        if substring(va, 39, 38) == 0b00:
+        if substring(va, 31, 30) == 0b00:
             if not self.registers.sctlr.c:
                 memattrs.type = MemType.NORMAL
                 memattrs.innerattrs = 0b00
@@ -364,8 +364,8 @@ class ArmV6:
                 memattrs.type = MemType.NORMAL
                 memattrs.innerattrs = 0b01
                 memattrs.shareable = False
-        elif substring(va, 39, 38) == 0b01:
-            if not self.registers.sctlr.c or bit_at(va, 37):
+        elif substring(va, 31, 30) == 0b01:
+            if not self.registers.sctlr.c or bit_at(va, 29):
                 memattrs.type = MemType.NORMAL
                 memattrs.innerattrs = 0b00
                 memattrs.shareable = True
@@ -373,11 +373,11 @@ class ArmV6:
                 memattrs.type = MemType.NORMAL
                 memattrs.innerattrs = 0b10
                 memattrs.shareable = False
-        elif substring(va, 39, 38) == 0b10:
+        elif substring(va, 31, 30) == 0b10:
             memattrs.type = MemType.DEVICE
             memattrs.innerattrs = 0b00
-            memattrs.shareable = bit_at(va, 37)
-        elif substring(va, 39, 38) == 0b11:
+            memattrs.shareable = bit_at(va, 29)
+        elif substring(va, 31, 30) == 0b11:
             memattrs.type = MemType.STRONGLY_ORDERED
             memattrs.innerattrs = 0b00
             memattrs.shareable = True
